@@ -138,10 +138,9 @@ func (b *trzszBuffer) readLine(mayHasJunk bool, timeout <-chan time.Time) ([]byt
 }
 
 func (b *trzszBuffer) readBinary(size int, timeout <-chan time.Time) ([]byte, error) {
+	// no b.readBuf.Grow(size) here: size is announced by the other side, memory is only
+	// allocated for the bytes that have actually arrived
 	b.readBuf.Reset()
-	if b.readBuf.Cap() < size {
-		b.readBuf.Grow(size)
-	}
 	b.timeout = timeout
 	b.newTimeout = nil
 	for b.readBuf.Len() < size {
